@@ -267,7 +267,7 @@ static void specific_race_round(void){ for(int rep=0; rep<6 && !viol; rep++){ st
     pthread_barrier_destroy(&x->bar); } }
 // dispatch_write / dispatch_read on a descriptor that is not open: the handler is called once with the error, the data object handed to
 // dispatch_write is reported back as unwritten and is released - its destructor runs exactly once (F47: it never ran)
-static void badfd_round(void){ int p[2]; if(pipe(p)) return; close(p[0]); close(p[1]); int bad=p[1];
+static void badfd_round(void){ int bad=2147483000+(int)(rnd()%600);      // a descriptor number that cannot be open (a just-closed one could be re-used by another thread of this program)
   _Atomic int *dt=calloc(1,sizeof *dt); __block _Atomic int calls=0, err=0; __block _Atomic long unw=-1; size_t sz=64+rnd()%4000; void *buf=malloc(sz);
   dispatch_data_t d=dispatch_data_create(buf,sz,dispatch_get_global_queue(0,0),^{ atomic_fetch_add(dt,1); free(buf); });
   dispatch_write(bad,d,dispatch_get_global_queue(0,0),^(dispatch_data_t rest,int e){ atomic_store(&unw,rest?(long)dispatch_data_get_size(rest):0); atomic_store(&err,e); atomic_fetch_add(&calls,1); });
@@ -298,6 +298,7 @@ static int nrounds, do_trace;
 static void *worker(void *a){ long me=(long)a; for(int r=0;r<nrounds && !viol;r++){ hierarchy(do_trace && me==0); if(r%4==0) source_round(); if(r%5==1) timer_reclock_round(); if(r%4==2) suspend_round(); if(r%3==0) data_round(); if(r%3==1) group_round(); if(r%4==3) iobarrier_round(); if(r%2==1) specific_race_round(); if(r%3==2) badfd_round(); if(r%3==0) uncancelled_release_round(); if(r%2==0) retarget_round(do_trace && me==0); } return 0; }
 static void on_crash(int sig){ char b[220]; int n=snprintf(b,sizeof b,"ORACLE VIOL seed=%llu the library trapped or crashed (signal %d) during object life cycles (its own over-release / resurrection / corrupt-state check, or a use after free)\n",(unsigned long long)seed,sig); if(n>0) (void)!write(1,b,(size_t)n); _exit(1); }
 int main(int argc,char**argv){ seed=argc>1?strtoull(argv[1],0,0):1; nrounds=argc>2?atoi(argv[2]):60; int nthr=argc>3?atoi(argv[3]):3; do_trace=1;
+  signal(SIGPIPE,SIG_IGN);
   if(!getenv("ASAN_OPTIONS")){ signal(SIGILL,on_crash); signal(SIGSEGV,on_crash); signal(SIGABRT,on_crash); signal(SIGBUS,on_crash); }
   evs=calloc(MAXEV,sizeof(ev_t)); _dispatch_verif_yield_cb=ycb; _dispatch_verif_atomic_cb=cb;
   pthread_t th[16]; for(long i=0;i<nthr;i++) pthread_create(&th[i],0,worker,(void*)i);
